@@ -33,6 +33,12 @@ def oracle(line: str, obs: Obs):
             if l.startswith("OUT "):
                 c = l.split(" ")[1]
                 d = kv(l)
+                if d["R"] == "1" and c not in dup_inflight and \
+                        (int(d["cmd"]), int(d["app"]), int(d["hbh"]), int(d["e2e"])) in pending.get(c, []):
+                    # what goes out bearing the command, application and both identifiers of an unanswered request of the peer
+                    # is the reply to it: it must be an answer
+                    pending[c].remove((int(d["cmd"]), int(d["app"]), int(d["hbh"]), int(d["e2e"])))
+                    fails.append({"what": "answer transmitted with the request bit set", "real": l, "event": ev[:200]})
                 if d["R"] == "0":
                     if c in dup_inflight:
                         continue
